@@ -113,7 +113,7 @@ SPECS["C07"] = dict(
 
 SPECS["C19"] = dict(
     level="model_checking",
-    outside="cookie / form-body / Basic-auth token placement (net/http form parsing is not interpreted); secrets longer than 42 bytes; more than 2 tokens per request context; the legacy controller saltAuthToken path (see DESIGN)",
+    outside="Basic-auth token placement; secrets longer than 42 bytes; more than 2 tokens per request context (provider) / more than one token per request (legacy path); Content-Type values with parameters (charset=...); the legacy token in the legacy-path harness has 2 symbolic characters, the cookie placement uses concrete token bytes (base64 table lookups)",
     assumptions=["HMAC-SHA1 modelled as an uninterpreted function with collision-freeness on occurring applications",
                  "stub backend for APIClientAuthorizationCurrent answers 401 / other error / an authorization owned by the remote / by another cluster"],
     runs=[
@@ -122,6 +122,9 @@ SPECS["C19"] = dict(
         dict(name="opaque", pkg="sdk/go/auth", harness=["auth/c19_salt.go"], entry="GosymH_C19_opaque", witnesses=["non-v2"]),
         dict(name="provider", pkg="lib/controller/federation", pam=True, harness=["federation/c19_provider.go"], entry="GosymH_C19_provider",
              params=dict(quick=dict(tokens=1), thorough=dict(tokens=2)), witnesses=["salted", "legacy-salted", "error", "done"]),
+        dict(name="legacy", pkg="lib/controller", pam=True, harness=["controller/c19_legacy.go"], entry="GosymH_C19_legacy", replay="engine",
+             stubs=["(*git.arvados.org/arvados.git/lib/controller.Handler).validateAPItoken=gosymValidate"],
+             params=dict(quick=dict(secretlen=3), thorough=dict(secretlen=5)), witnesses=["done"]),
         dict(name="keepstore", pkg="services/keepstore", harness=["keepstore/c19_remote.go", "keepstore/c07_handler.go", "keepstore/c01_stub.go", "keepstore/util.go"],
              entry="GosymH_C19_keepstore", replay="engine",
              stubs=C07_STUBS + ["(*git.arvados.org/arvados.git/sdk/go/keepclient.KeepClient).Get=gosymRemoteGet"], witnesses=["forwarded", "refused"]),
